@@ -744,7 +744,7 @@ fn scenarios() -> Vec<(String, Vec<J>, Vec<J>)> {
         steps
     };
     v.push(("cap-254".into(), many(MAX_TOKENS - 2, 3), light(vec![st("Start"), claim(1, 1), st("Start"), claim(2, 1), st("Start"), claim(3, 1), claim(3, 1), revoke(old as i64), st("Start"), claim(4, 1), st("Start"), claim(5, 1), st("Reload"), st("List")])));
-    v.push(("cap-256".into(), many(MAX_TOKENS, 2), light(vec![st("Start"), claim(1, 1), claim(1, 1), tick(100), st("Start"), claim(2, 1), tick(1), st("Start"), claim(3, 1), st("List")])));
+    v.push(("cap-256".into(), many(MAX_TOKENS, 2), light(vec![st("Start"), claim(1, 1), claim(1, 1), revoke(old as i64), claim(1, 1), st("Start"), claim(2, 1), st("Start"), claim(3, 1), tick(100), st("Start"), claim(4, 1), tick(1), st("Start"), claim(5, 1), st("List")])));
     v.push(("cap-257".into(), many(MAX_TOKENS + 1, 0), light(vec![st("Start"), claim(1, 1), revoke(old as i64), st("Start"), claim(2, 1), revoke(old as i64 + 1), st("Start"), claim(3, 1), st("Start"), claim(4, 1), st("RevokeAll"), st("Start"), claim(5, 1), st("List")])));
     v
 }
@@ -971,8 +971,24 @@ pub fn gen(args: &[String]) -> i32 {
             }
             g.seeds = seedv.len() as i64;
         }
+        // now and then a file that is at the cap on enabled entries (one below .. one above), with some
+        // disabled entries that must not count
+        let at_cap = seedv.is_empty() && g.rng.gen_range(0..1000) < 15;
+        if at_cap {
+            let enabled = MAX_TOKENS + g.rng.gen_range(0..5) - 3;
+            let disabled = g.rng.gen_range(0..4);
+            for i in 0..enabled + disabled {
+                let cr = T0 - 5000 + i as u64;
+                seedv.push(seed_tok(cr, (i % 4) as i64, i < enabled, T0 + 4000 + (i as u64 % 5), cr));
+                if i % 40 == 0 {
+                    g.ids.push(cr as i64);
+                }
+            }
+            g.instants.push(T0 + 4000);
+            g.seeds = seedv.len() as i64;
+        }
         let len = g.rng.gen_range(6..22);
-        let pprob = [1.0, 0.35, 0.0][g.rng.gen_range(0..3)];
+        let pprob = if at_cap { 0.0 } else { [1.0, 0.35, 0.0][g.rng.gen_range(0..3)] };
         let mut steps = Vec::new();
         for i in 0..len {
             let mut s = g.step(endpoint);
